@@ -11,6 +11,7 @@ PR = "des/src/net/processing.rs"
 CH = "des/src/net/channel.rs"
 BLD = "des/src/runtime/builder.rs"
 MT = "des/src/net/runtime/mod.rs"
+TP = "des/src/net/topology.rs"
 
 # (id, property, file, regex, replacement, expectation)   expectation: "kill" (exit 1 expected) | "keep" (exit 0 expected)
 PACK = [
@@ -39,6 +40,13 @@ PACK = [
     ("pr-end-skip-first", "C14", PR, r"            self\.stack\.items\[i\]\.event_end\(\);", "            if i > 0 { self.stack.items[i].event_end(); }", "kill"),
     ("ch-limit-ge", "C07", CH, r"msg\.length\(\) > limit\.unwrap_or\(usize::MAX\)", "msg.length() >= limit.unwrap_or(usize::MAX)", "kill"),
     ("ch-lifo", "C07", CH, r"self\.packets\.push_back\(\(msg, con\)\);", "self.packets.push_front((msg, con));", "kill"),
+    ("tp-any-ne", "C19", TP, r"\.any\(\|edge\| edge\.dst == src\)", ".any(|edge| edge.dst != src)", "kill"),
+    ("tp-visit-self", "C19", TP, r"visit\(topo, edge\.dst, visited\);", "visit(topo, i, visited);", "kill"),
+    ("tp-skip-node0", "C19", TP, r"for start in 0\.\.self\.nodes\.len\(\) \{", "for start in 1..self.nodes.len() {", "kill"),
+    ("tp-no-push", "C19", TP, r"                visited\.push\(i\);\n", "", "kill"),
+    ("tp-bidir-early-true", "C19", TP, r"(\.any\(\|edge\| edge\.dst == src\) \{\n\s*return false;\n\s*\}\n\s*\}\n)", r"\1            return true;\n", "kill"),
+    ("eq-tp-len-lt", "C19", TP, r"if visited\.len\(\) != self\.nodes\.len\(\) \{", "if visited.len() < self.nodes.len() {", "keep"),  # a duplicate-free list of node indices never exceeds the node count
+    ("eq-tp-bundle-index", "C19", TP, r"for edge in bundle \{", "for edge in &self.edges[src] {", "keep"),
     # equivalent edits: must stay green
     ("eq-swap-t0-t1", "C01", CQ, r"                self\.t0 \+= self\.t;\n                self\.t1 \+= self\.t;\n            \}", "                self.t1 += self.t;\n                self.t0 += self.t;\n            }", "keep"),
     ("eq-extra-stmt", "C01", CQ, r"\n        self\.len \+= 1;", "\n        self.len += 1;\n        let _dbg = self.len;", "keep"),
@@ -49,7 +57,7 @@ PACK = [
     ("eq-take-msg", "C14", PR, r"if let Some\(existing_msg\) = msg \{", "if let Some(existing_msg) = msg.take() {", "keep"),
 ]
 
-FILES = [CQ, RT, LIM, ES, PR, CH, BLD, MT, "des/src/net/path.rs", "des/src/net/message/mod.rs", "des/src/net/message/header.rs", "des/src/net/message/body.rs", "des/src/time/mod.rs",
+FILES = [CQ, RT, LIM, ES, PR, CH, BLD, MT, TP, "des/src/net/path.rs", "des/src/net/message/mod.rs", "des/src/net/message/header.rs", "des/src/net/message/body.rs", "des/src/time/mod.rs",
          "des/src/time/duration.rs", "des/src/macros/cfg.rs", "des/src/runtime/bench.rs", "des/src/runtime/event/types.rs", "des-cqueue/src/stable/linked_list.rs",
          "des-cqueue/src/stable/alloc.rs", "des-cqueue/src/stable/boxed.rs", "des-cqueue/Cargo.toml", "des-cqueue/src/lib.rs"]
 
